@@ -18,6 +18,9 @@ From PV Require Import Base.Outcome Base.Prim Spec.PrimSpec Spec.C05Line Spec.C0
 Open Scope list_scope.
 Open Scope Z_scope.
 
+(* the .debug_str of the supplementary object file, when DWARFInfo.supplementary_dwarfinfo is set *)
+Local Notation sup_of secs := (match sec_sup_str secs with Some sup => sup | None => None end).
+
 (* ================================================================ 1. the code's tables *)
 (* An edit of a DW_LNS/DW_LNE/DW_LNCT number, of a form code, or of the parser bound to a form in
    Dwarf_dw_form changes Gen/C05Tables.v and one of these stops compiling. *)
@@ -133,11 +136,12 @@ Theorem C05_enc_unit_bytes : forall le h prog e,
 Proof. exact enc_unit_bytes. Qed.
 Print Assumptions C05_enc_unit_bytes.
 
-(* resolve_strings: line_strp/strp offsets are replaced by the strings found there, every other
-   field is kept, field order is kept *)
+(* resolve_strings: line_strp/strp offsets are replaced by the strings found there, strp_sup /
+   GNU_strp_alt offsets by the strings of the supplementary file's .debug_str, every other field
+   is kept, field order is kept *)
 Theorem C05_resolve_strings : forall secs fmt entries,
   nodupb (map fst fmt) = true -> forallb (forms_match fmt) entries = true ->
-  Forall (Forall (refs_present (sec_line_str secs) (sec_str secs))) entries ->
+  Forall (Forall (refs_present (sec_line_str secs) (sec_str secs) (sup_of secs))) entries ->
   resolve_strings secs (Some (format_view fmt)) (Some (map (raw_entry fmt) entries))
   = Ok (Some (map (entry_view fmt) entries)).
 Proof. exact resolve_strings_valid. Qed.
@@ -151,8 +155,8 @@ Theorem C05_header_roundtrip : forall secs s h body prog pre tail,
   wf_header h = true -> ms_is64 s = h_is64 h -> enc_body (ms_le s) h body ->
   sizes_ok (h_is64 h) (zlen (unit_rest (ms_le s) h body prog)) (zlen body) = true ->
   sec_line secs = pre ++ unit_bytes (ms_le s) h body prog ++ tail ->
-  Forall (Forall (refs_present (sec_line_str secs) (sec_str secs))) (h_dirs h) ->
-  Forall (Forall (refs_present (sec_line_str secs) (sec_str secs))) (h_file_names h) ->
+  Forall (Forall (refs_present (sec_line_str secs) (sec_str secs) (sup_of secs))) (h_dirs h) ->
+  Forall (Forall (refs_present (sec_line_str secs) (sec_str secs) (sup_of secs))) (h_file_names h) ->
   parse_line_program_uncached secs (zlen pre) s =
   Ok {| lp_header := expected_view h (zlen (unit_rest (ms_le s) h body prog)) (zlen body);
         lp_start := zlen pre + zlen (unit_bytes (ms_le s) h body prog) - zlen prog;
@@ -167,8 +171,8 @@ Theorem C05_unit_rows : forall secs s h body prog pre tail,
   wf_header h = true -> ms_is64 s = h_is64 h -> enc_body (ms_le s) h body ->
   sizes_ok (h_is64 h) (zlen (unit_rest (ms_le s) h body prog)) (zlen body) = true ->
   sec_line secs = pre ++ unit_bytes (ms_le s) h body prog ++ tail ->
-  Forall (Forall (refs_present (sec_line_str secs) (sec_str secs))) (h_dirs h) ->
-  Forall (Forall (refs_present (sec_line_str secs) (sec_str secs))) (h_file_names h) ->
+  Forall (Forall (refs_present (sec_line_str secs) (sec_str secs) (sup_of secs))) (h_dirs h) ->
+  Forall (Forall (refs_present (sec_line_str secs) (sec_str secs) (sup_of secs))) (h_file_names h) ->
   forall instrs, enc_prog (cfg_of s) (h_params h) instrs prog ->
   (h_version h < 5 \/ defined_files instrs = []) ->
   exists lp es,
@@ -189,17 +193,18 @@ Print Assumptions C05_header_encoder_in_relation.
 
 (* what the driver checks for a generated unit (wf_header, wf_prog, sizes) implies the hypotheses
    of C05_unit_rows, with the expected view the driver hands to the harness *)
-Theorem C05_checked_unit_rows : forall secs s h k (progk : list (instr * nat * nat)) ls st pre tail,
+Theorem C05_checked_unit_rows : forall secs s h k (progk : list (instr * nat * nat)) ls st sup pre tail,
   let le := ms_le s in
   let instrs := map (fun x => fst (fst x)) progk in
   let prog := encode_prog (cfg_of s) progk in
   let e := encode_unit le k h prog in
-  wf_header h && wf_header_values h && header_refs_ok_b ls st h = true ->
+  wf_header h && wf_header_values h && header_refs_ok_b ls st sup h = true ->
   wf_prog (cfg_of s) (h_params h) instrs = true ->
   sizes_ok (h_is64 h) (unit_length_of le k h prog) (header_length_of le k h) = true ->
   ms_is64 s = h_is64 h ->
   sec_line secs = pre ++ e ++ tail -> sec_line_str secs = Some ls -> sec_str secs = Some st ->
-  zlen ls < 2 ^ 63 -> zlen st < 2 ^ 63 ->
+  sec_sup_str secs = Some (Some sup) ->
+  zlen ls < 2 ^ 63 -> zlen st < 2 ^ 63 -> zlen sup < 2 ^ 63 ->
   (h_version h < 5 \/ defined_files instrs = []) ->
   exists lp es,
     parse_line_program_uncached secs (zlen pre) s = Ok lp /\
@@ -269,15 +274,16 @@ Proof. vm_compute. reflexivity. Qed.
    inline string, a udata directory index, an MD5 and a strp'd vendor field *)
 Definition ex_line_str : list Z := [47; 117; 0; 47; 115; 114; 99; 0].       (* "/u" "/src" *)
 Definition ex_str : list Z := [0; 120; 121; 0].                            (* "" "xy" *)
+Definition ex_sup_str : list Z := [113; 0; 100; 119; 122; 0].               (* "q" "dwz": the supplementary file *)
 Definition ex_header5 : lheader :=
   {| h_is64 := true; h_version := 5; h_address_size := 8; h_seg_sel_size := 0;
      h_params := ex_params; h_std_lengths := [0; 1; 1; 1; 1; 0; 0; 0; 1; 0; 0; 1];
      h_include_dirs := []; h_files := [];
      h_dir_format := [(1, LF_line_strp)];
      h_dirs := [[FV_line_strp 0 [47; 117]]; [FV_line_strp 4 [115; 114; 99]]];
-     h_file_format := [(1, LF_string); (2, LF_udata); (5, LF_data16); (0x2001, LF_strp)];
-     h_file_names := [[FV_string [97; 46; 99]; FV_udata 1; FV_data16 (repeat 171 16); FV_strp 1 [120; 121]];
-                      [FV_string [98]; FV_udata 300; FV_data16 (repeat 1 16); FV_strp 0 []]] |}.
+     h_file_format := [(1, LF_string); (2, LF_udata); (5, LF_data16); (0x2001, LF_strp); (0x2002, LF_strp_sup)];
+     h_file_names := [[FV_string [97; 46; 99]; FV_udata 1; FV_data16 (repeat 171 16); FV_strp 1 [120; 121]; FV_strp_sup 2 [100; 119; 122]];
+                      [FV_string [98]; FV_udata 300; FV_data16 (repeat 1 16); FV_strp 0 []; FV_strp_sup 3 [119; 122]]] |}.
 Definition ex_structs5 : mstructs := {| ms_le := false; ms_is64 := true; ms_addr := 8 |}.
 Definition ex_prog5 : list (instr * nat * nat) :=
   [pk (ISetAddress 65536) 0 0; pk (ISpecial 100) 0 0; pk (IAdvancePc 9) 0 0; pk (IEndSequence) 0 0].
@@ -285,7 +291,7 @@ Definition ex_prog5 : list (instr * nat * nat) :=
 (* the boolean hypotheses of C05_checked_unit_rows hold for it *)
 Example C05_ex_unit5_in_domain :
   let prog := encode_prog (cfg_of ex_structs5) ex_prog5 in
-  wf_header ex_header5 && wf_header_values ex_header5 && header_refs_ok_b ex_line_str ex_str ex_header5 = true /\
+  wf_header ex_header5 && wf_header_values ex_header5 && header_refs_ok_b ex_line_str ex_str ex_sup_str ex_header5 = true /\
   wf_prog (cfg_of ex_structs5) ex_params (map (fun x => fst (fst x)) ex_prog5) = true /\
   sizes_ok true (unit_length_of false 1 ex_header5 prog) (header_length_of false 1 ex_header5) = true.
 Proof. vm_compute. repeat split; reflexivity. Qed.
@@ -294,7 +300,7 @@ Proof. vm_compute. repeat split; reflexivity. Qed.
 Example C05_ex_unit5 :
   let prog := encode_prog (cfg_of ex_structs5) ex_prog5 in
   let e := encode_unit false 1 ex_header5 prog in
-  let secs := {| sec_line := [5; 5] ++ e ++ [6]; sec_line_str := Some ex_line_str; sec_str := Some ex_str |} in
+  let secs := {| sec_line := [5; 5] ++ e ++ [6]; sec_line_str := Some ex_line_str; sec_str := Some ex_str; sec_sup_str := Some (Some ex_sup_str) |} in
   match parse_line_program_uncached secs 2 ex_structs5 with
   | Ok lp =>
       lp_header lp = expected_view ex_header5 (unit_length_of false 1 ex_header5 prog) (header_length_of false 1 ex_header5)
@@ -327,8 +333,8 @@ Definition ex_prog3 : list (instr * nat * nat) :=
 Example C05_ex_unit3 :
   let prog := encode_prog (cfg_of ex_structs3) ex_prog3 in
   let e := encode_unit true 0 ex_header3 prog in
-  let secs := {| sec_line := e; sec_line_str := None; sec_str := None |} in
-  wf_header ex_header3 && wf_header_values ex_header3 && header_refs_ok_b [] [] ex_header3 = true /\
+  let secs := {| sec_line := e; sec_line_str := None; sec_str := None; sec_sup_str := None |} in
+  wf_header ex_header3 && wf_header_values ex_header3 && header_refs_ok_b [] [] [] ex_header3 = true /\
   wf_prog (cfg_of ex_structs3) (h_params ex_header3) (map (fun x => fst (fst x)) ex_prog3) = true /\
   match parse_line_program_uncached secs 0 ex_structs3 with
   | Ok lp =>
@@ -354,7 +360,7 @@ Proof. split; reflexivity. Qed.
 (* the cache: two units pointing at the same offset get the same program object *)
 Example C05_ex_cache :
   let prog := encode_prog (cfg_of ex_structs3) ex_prog3 in
-  let secs := {| sec_line := encode_unit true 0 ex_header3 prog; sec_line_str := None; sec_str := None |} in
+  let secs := {| sec_line := encode_unit true 0 ex_header3 prog; sec_line_str := None; sec_str := None; sec_sup_str := None |} in
   let cu := {| cu_structs := ex_structs3; cu_top_attrs := [("DW_AT_stmt_list"%string, 0)] |} in
   match line_program_for_CU secs [] cu with
   | Ok (Some lp, cache) => line_program_for_CU secs cache cu = Ok (Some lp, cache) /\ length cache = 1%nat
